@@ -337,6 +337,13 @@ def build_program(pid, seed, n, modular=False):
             rows.append((ai, val))
         if not ok:
             continue
+        if k % 3 == 2:
+            # every third function runs its body inside an `elif` branch (conditions and bodies of elif branches are typed
+            # and lowered like any other code)
+            head, body = text.split('\n', 1)
+            default = {'int': '0', 'float': '0.0', 'str': '""', 'bool': 'False', 'List[int]': 'xs[9:]'}[kind]
+            inner = ''.join('    ' + ln + '\n' if ln.strip() else ln + '\n' for ln in body.rstrip('\n').split('\n'))
+            text = f'{head}\n    if a > 1000000:\n        return {default}\n    elif a > -1000000:\n{inner}    return {default}\n\n'
         funcs.append(text)
         for ai, val in rows:
             checks.append((k, ai, kind, val))
